@@ -11,6 +11,7 @@ import (
 	"hash"
 	"io"
 	"sync"
+	"unsafe"
 
 	ike "github.com/free5gc/ike"
 	"github.com/free5gc/ike/message"
@@ -245,7 +246,7 @@ func skOracles(o *saObj, initiator bool, wire []byte) J {
 	il := icvLen[gs(o.suite, "integ")]
 	out := J{"ske": ske, "ska": ska, "icvlen": il, "h": gs(o.suite, "integ")}
 	n := len(wire)
-	if n < 28+4+16+16+il {
+	if n < 28+4+il { // no room for a checksum behind the Encrypted payload's header
 		return out
 	}
 	env := newEnv(0)
@@ -254,7 +255,7 @@ func skOracles(o *saObj, initiator bool, wire []byte) J {
 		out["mac"] = mac
 		out["mac_span"] = []any{0, n - il}
 	}
-	if (n-il-48)%16 == 0 {
+	if n >= 28+4+16+16+il && (n-il-48)%16 == 0 {
 		pt, err := cbcDecrypt(ske, wire[32:48], wire[48:n-il])
 		if err == nil {
 			out["pt"] = pt
@@ -448,6 +449,27 @@ func (h *heapState) keep(w []byte) {
 	h.outSnaps = append(h.outSnaps, append([]byte{}, w...))
 }
 
+// outFresh: a buffer an encode has just returned is new memory -- it shares nothing with a buffer returned earlier, which
+// the caller still holds (and may have queued for sending, or written over)
+func (h *heapState) outFresh(w []byte) bool {
+	if cap(w) == 0 {
+		return true
+	}
+	w = w[:cap(w)]
+	lo, hi := uintptr(unsafe.Pointer(&w[0])), uintptr(unsafe.Pointer(&w[0]))+uintptr(len(w))
+	for _, b := range h.outs {
+		if cap(b) == 0 {
+			continue
+		}
+		b = b[:cap(b)]
+		blo, bhi := uintptr(unsafe.Pointer(&b[0])), uintptr(unsafe.Pointer(&b[0]))+uintptr(len(b))
+		if lo < bhi && blo < hi {
+			return false
+		}
+	}
+	return true
+}
+
 func (h *heapState) heldSame() bool {
 	for i := range h.outs {
 		if string(h.outs[i]) != string(h.outSnaps[i]) {
@@ -549,6 +571,7 @@ func actHeapEncodeDec(e *Env, a J) J {
 	o := errObs(err)
 	if err == nil {
 		o["wire"] = octOf(w)
+		o["outfresh"] = h.outFresh(w)
 		h.keep(w)
 	}
 	o["insame"] = h.inSame()
@@ -567,6 +590,7 @@ func actHeapEncode(e *Env, a J) J {
 	o["insame"] = h.inSame()
 	o["heldsame"] = h.heldSame() // checked BEFORE the new buffer joins the held ones: did this call disturb an earlier result?
 	if err == nil {
+		o["outfresh"] = h.outFresh(w)
 		h.keep(w)
 	}
 	o["srcafter"] = projChain(h.src.Payloads)
@@ -629,6 +653,7 @@ func actHeapProtect(e *Env, a J) J {
 	o["heldsame"] = h.heldSame()
 	o["insame"] = h.inSame()
 	if err == nil {
+		o["outfresh"] = h.outFresh(pw)
 		h.keep(pw)
 		h.out = pw
 		h.protSnap = projChain(h.src.Payloads)
